@@ -3,8 +3,15 @@
 //! note: wire::do_read (the type-id dispatch behind wire::read): a successfully decoded message is of the type that was announced on the wire - Message::type_id() of the result equals the two-byte type that was read - for every message type the library knows, and an unknown type is handed back as Unknown(type)
 //! trusted: env: the 50 message structs of ln::msgs are opaque unit structs (their codecs are the Kani harnesses' business); LengthReadable::read_from_fixed_length_buffer is an external_body blanket impl (any outcome); CustomMessageReader::read is an external_body stub (any outcome); the 50 `impl Encode for msgs::X { const TYPE }` items, the Message enum, `impl Type for Message :: fn type_id` and do_read are extracted
 //! trusted: R5: Message's bound `T: core::fmt::Debug + Type + TestEq` is reduced to `T: Type`; the blanket `impl<T: Encode> Type for T` is written here with the spec function tid() = T::TYPE beside its one-line body; R16 (`&Message::V(ref msg)` -> `Message::V(msg)`); R8: match arms on associated constants `msgs::X::TYPE => E` are written as guards `__t if __t == msgs::X::TYPE => E` (Verus has no associated constants in patterns); the specification spec_tid is derived mechanically from the extracted body of Message::type_id (same arms, `msg.type_id()` -> `msg.tid()`)
+//! trusted: assume_specification for core::cmp::max / core::cmp::min (std definitions): present in every unit so that a change that introduces them is verified instead of being rejected by the tool
 use vstd::prelude::*;
 verus! {
+use vstd::std_specs::cmp::*;
+use core::cmp;
+pub assume_specification<T: core::cmp::Ord>[core::cmp::max::<T>](a: T, b: T) -> (r: T)
+    ensures T::obeys_cmp_spec() ==> r == (if b.cmp_spec(&a) == core::cmp::Ordering::Less { a } else { b });
+pub assume_specification<T: core::cmp::Ord>[core::cmp::min::<T>](a: T, b: T) -> (r: T)
+    ensures T::obeys_cmp_spec() ==> r == (if b.cmp_spec(&a) == core::cmp::Ordering::Less { b } else { a });
 pub mod msgs {
     pub struct Stfu {}
     pub struct PeerStorage {}
